@@ -89,6 +89,8 @@ class Repo:
         self.root = root or REPO
         self._mods: dict[str, ModuleInfo] = {}
         self.extracted: dict[str, str] = {}    # qualname -> sha1 of source segment
+        self.class_hint: dict[str, ClassInfo] = {}   # first module-relative resolution of a bare class name wins
+        self.default_hint: str | None = None   # module of the function under verification
 
     def module(self, relpath: str) -> ModuleInfo:
         if relpath not in self._mods:
@@ -100,15 +102,25 @@ class Repo:
     def find_class(self, name: str, hint: str | None = None) -> ClassInfo | None:
         """Resolve a class by bare name: hint module first, then its imports, then every loaded module,
         then a scan of operon_ai/."""
-        if hint:
+        if hint and not hint.startswith("<"):
             m = self.module(hint)
             if name in m.classes:
+                self.class_hint.setdefault(name, m.classes[name])
                 return m.classes[name]
             org = m.imports.get(name)
             if org:
                 rp = self._resolve_import(hint, org)
                 if rp:
-                    return self.find_class(name, None) if rp is True else self._class_in(rp, name)
+                    c = self.find_class(name, None) if rp is True else self._class_in(rp, name)
+                    if c is not None:
+                        self.class_hint.setdefault(name, c)
+                    return c
+        if name in self.class_hint:
+            return self.class_hint[name]
+        if self.default_hint and self.default_hint != hint:
+            c = self.find_class(name, self.default_hint)
+            if c is not None:
+                return c
         for m in list(self._mods.values()):
             if name in m.classes:
                 return m.classes[name]
